@@ -91,9 +91,9 @@ DEFAULT_PORTFOLIO = ['z3-new', 'cvc5', 'cvc5-fsq', 'z3']
 
 def solver_cmd(name, path, timeout, seed):
     if name == 'z3-new':
-        return [Z3NEW, '-T:%d' % timeout, 'sat.random_seed=%d' % seed, 'smt.random_seed=%d' % seed, path]
+        return [Z3NEW, '-T:%d' % timeout, 'model_validate=true', 'sat.random_seed=%d' % seed, 'smt.random_seed=%d' % seed, path]
     if name == 'z3':
-        return [Z3OLD, '-T:%d' % timeout, 'smt.random_seed=%d' % seed, path]
+        return [Z3OLD, '-T:%d' % timeout, 'model_validate=true', 'smt.random_seed=%d' % seed, path]
     if name == 'cvc5':
         return [CVC5, '--lang=smt2', '--strings-exp', '--tlimit=%d' % (timeout * 1000), '--seed=%d' % seed, path + '.cvc5']
     if name == 'cvc5-fsq':
@@ -102,6 +102,9 @@ def solver_cmd(name, path, timeout, seed):
 
 
 def _verdict_of(out, rc):
+    if 'invalid model' in out:
+        # z3's string solver sometimes answers `sat` with a model that does not satisfy the assertions: not an answer
+        return 'unknown'
     for line in out.splitlines():
         line = line.strip()
         if line in ('sat', 'unsat', 'unknown'):
@@ -171,10 +174,17 @@ def discharge_one(args):
             verdict = v2
     model = None
     if verdict == 'sat':
-        with open(path + '.m', 'w') as f:
-            f.write(text + '\n(get-model)\n')
-        res, out, dt = _run([Z3NEW, '-T:%d' % timeout, path + '.m'], timeout)
-        model = out
+        who = [a['solver'] for a in attempts if a['result'] == 'sat'][0]
+        if who.startswith('cvc5'):
+            with open(path + '.m.cvc5', 'w') as f:
+                f.write('(set-option :produce-models true)\n' + cvc5_text(text) + '\n(get-model)\n')
+            cmd = solver_cmd(who, path + '.m', timeout, seed)
+        else:
+            with open(path + '.m', 'w') as f:
+                f.write(text + '\n(get-model)\n')
+            cmd = solver_cmd(who, path + '.m', timeout, seed)
+        res, out, dt = _run(cmd, timeout)
+        model = out if res == 'sat' else None
     return idx, verdict, attempts, model
 
 
